@@ -4,9 +4,16 @@ import MypyVerif.Proofs.StubDefault
 /-!
 # C19 — generated stubs are valid, self-consistent and faithful: the three decision cores
 
-Property theorems only (helpers: Proofs/StubSig.lean).  What is proved here is about the *models* of
-(a) signature emission, (b) default-value rendering, (c) import bookkeeping; validity and faithfulness of
-whole stubs are searched with the real tools (harness/c19), not proved.
+Property theorems only (helpers: Proofs/StubSig.lean, Proofs/StubDefault.lean, Proofs/StubImports.lean).
+What is proved here is about the *models* of (a) signature emission, (b) default-value rendering,
+(c) import bookkeeping; validity and faithfulness of whole stubs are searched with the real tools
+(harness/c19), not proved.
+
+Three full-strength statements are false of the current code and are kept visible as `not_…` theorems with
+concrete witnesses (replayed on the real stubgen by harness/c19 on every run):
+  * `not_sig_roundtrip`, `not_sig_valid`      — parameters named `__x` outside the `/` prefix   (F-C19-1)
+  * `not_default_closed`                      — `not 1` ↦ `not1`, `1e999` ↦ `inf`               (F-C19-2, F-C19-3)
+  * `not_default_is_valid_expr`               — bytes containing both quote characters          (F-C19-4)
 -/
 namespace StubSig
 open StubDefault
@@ -117,6 +124,39 @@ theorem default_is_valid_expr_partial (sl : Nat → Nat) (e : DExpr) (hg : e.goo
     split
     · exact render_isExpr e t h hg
     · exact IsExpr.ellipsis
+
+/-- **infer_type_sound**: when `get_str_type_of_node` names a type for an unannotated parameter's default
+    (`x=-1` ↦ `x: int = -1`), that is the run-time type of the literal — for every literal, through any
+    nesting of unary operators (`- -1.5` is `float`, `not not True` is `bool`, `-True` and `~1` get no
+    annotation). -/
+theorem infer_type_sound (e : DExpr) (t : String) (h : inferType e = some t) : typeOf e = some t := by
+  unfold inferType at h
+  cases e with
+  | unary o inner =>
+    simp only [maybeUnwrap] at h
+    by_cases hm : o.isMath = true
+    · simp only [hm, ↓reduceIte] at h
+      rcases unwrapMath_shape (.unary o inner) ⟨o, inner, rfl⟩ with hnum | ⟨o', e', hu⟩
+      · rw [unwrapMath_sound _ hnum]
+        cases hr : unwrapMath (.unary o inner) <;> simp_all [typeOf, isNumAtom]
+      · rw [hu] at h; simp at h
+    · simp only [hm, Bool.false_eq_true, ↓reduceIte] at h
+      by_cases hn : (o == UOp.not) = true
+      · simp only [hn, ↓reduceIte] at h
+        rcases unwrapNot_shape (.unary o inner) ⟨o, inner, rfl⟩ with hb | ⟨o', e', hu⟩
+        · rw [unwrapNot_sound _ hb]
+          cases hr : unwrapNot (.unary o inner) with
+          | const c => cases c <;> simp_all [isBoolConst]
+          | _ => simp_all [isBoolConst]
+        · rw [hu] at h; simp at h
+      · simp only [hn, Bool.false_eq_true, ↓reduceIte] at h
+        simp at h
+  | const c => cases c <;> simp_all [maybeUnwrap, typeOf]
+  | _ => simp_all [maybeUnwrap, typeOf]
+
+example : inferType (.unary .neg (.unary .pos (.float "1.5" true))) = some "float" ∧
+    inferType (.unary .not (.unary .not (.const .true))) = some "bool" ∧
+    inferType (.unary .neg (.const .true)) = none ∧ inferType (.unary .inv (.int 1)) = none := by decide
 
 /-- **default_closed** (the provable part): under the same hypotheses and when every float literal is finite,
     the emitted default contains no free name and no mis-lexed text: it is a literal display (or `...`) and
